@@ -732,3 +732,119 @@ def _oracle_getitem_independent(c, o):
 
 FAMILIES.append(Family('getitem_independent', _gen_getitem_independent, _impl_getitem_independent, None, '', None, _oracle_getitem_independent,
                        theorem='C13_history_local (an edit touches the edited value only)'))
+
+
+# ------------------------------------------------------------------------------------------------ family: index expressions resolved in the Coq model
+def _ix_coq(ix):
+    def o(v):
+        return 'None' if v is None else f'(Some {zlit(v)})'
+    if ix['t'] == 'int':
+        return f'(IInt {zlit(ix["v"])})'
+    return f'(ISlice {o(ix["v"][0])} {o(ix["v"][1])} {o(ix["v"][2])})'
+
+
+def _ix_py(ix):
+    return ix['v'] if ix['t'] == 'int' else slice(*ix['v'])
+
+
+def _gen_index_model(rng, tier):
+    cases = []
+    for n in range(1, 6 if tier == 'quick' else 8):
+        init = [rand_rot(rng, POOL2) for _ in range(n)]
+        val = rand_rot(rng, POOL2)
+        ixs = [{'t': 'int', 'v': i} for i in range(-n - 1, n + 1)]
+        vals = [None] + list(range(-n - 2, n + 3))
+        for _ in range(14 if tier == 'quick' else 150):
+            ixs.append({'t': 'slice', 'v': [rng.choice(vals), rng.choice(vals), rng.choice([None, 1, 1, 2, 3, 3, 0, -1])]})
+        ixs += [{'t': 'slice', 'v': [None, None, None]}, {'t': 'slice', 'v': [None, None, 2]}, {'t': 'slice', 'v': [-1, None, None]},
+                {'t': 'slice', 'v': [None, -1, None]}, {'t': 'slice', 'v': [n, None, None]}]
+        for ix in ixs:
+            cases.append({'init': init, 'val': val, 'ix': ix})
+    return cases
+
+
+def _impl_index_model(c):
+    n = len(c['init'])
+    out = {}
+    r = rot_torch(c['init'], [n])
+    try:
+        g = r[_ix_py(c['ix'])]
+        out['get'] = {'M': mats(g), 'f': flags(g), 'single': bool(g.single)}
+    except Exception as e:  # noqa: BLE001
+        out['get'] = {'raises': vlib.exc_enum(e)}
+    r2 = rot_torch(c['init'], [n])
+    v = rot_torch([c['val']])
+    out['valM'], out['valf'] = mats(v)[0], flags(v)[0]
+    out['M0'], out['f0'] = mats(r2), flags(r2)
+    try:
+        r2[_ix_py(c['ix'])] = v
+        out['set'] = {'M': mats(r2), 'f': flags(r2)}
+        back = r2[_ix_py(c['ix'])]
+        out['back'] = {'M': mats(back), 'f': flags(back)}
+    except Exception as e:  # noqa: BLE001
+        out['set'] = {'raises': vlib.exc_enum(e)}
+    return out
+
+
+def _coq_index_model(c):
+    st = '[' + '; '.join(rot_coq(r) for r in c['init']) + ']'
+    return f'(qc_getitem {_ix_coq(c["ix"])} {st}, qc_setitem {_ix_coq(c["ix"])} {rot_coq(c["val"])} {st})'
+
+
+def _cmp_index_model(c, o, m):
+    if isinstance(o, dict) and 'raises' in o:
+        return f'implementation raises {o}'
+    for name, mv in zip(('get', 'set'), m):
+        got = o[name]
+        if mv is None:
+            if 'raises' not in got or got['raises'] not in ('IndexError', 'ValueError'):
+                return f'{name}item {c["ix"]}: the model rejects the index, the implementation gives {str(got)[:80]}'
+            continue
+        st = mv['some']
+        if 'raises' in got:
+            return f'{name}item {c["ix"]}: implementation raises {got["raises"]}, the model selects {len(st)} element(s)'
+        if len(st) != len(got['M']):
+            return f'{name}item {c["ix"]}: {len(got["M"])} elements, model {len(st)}'
+        for j, (Mj, fj) in enumerate(st):
+            e = close(got['M'][j], Mj)
+            if e or got['f'][j] != fj:
+                return f'{name}item {c["ix"]} element {j}: {e or "improper flag"}'
+    return None
+
+
+def _oracle_index_model(c, o):
+    if isinstance(o, dict) and 'raises' in o:
+        return f'crashed: {o}'
+    n = len(c['init'])
+    ix = c['ix']
+    try:
+        sel = list(range(n))[_ix_py(ix)]            # python's own list indexing as the reference
+        sel = [sel] if ix['t'] == 'int' else sel
+        valid = not (ix['t'] == 'slice' and ix['v'][2] is not None and ix['v'][2] < 0)   # torch rejects negative steps
+    except (IndexError, ValueError):
+        sel, valid = None, False
+    if not valid:
+        return None if 'raises' in o['get'] and 'raises' in o['set'] else f'invalid index {ix} accepted'
+    if 'raises' in o['get'] or 'raises' in o['set']:
+        return f'valid index {ix} on a batch of {n}: get {o["get"].get("raises")}, set {o["set"].get("raises")}'
+    M0 = np.array(o['M0']).reshape(-1, 3, 3)
+    G = np.array(o['get']['M']).reshape(-1, 3, 3)
+    if len(G) != len(sel) or any(np.max(np.abs(G[k] - M0[p])) > 1e-12 or o['get']['f'][k] != o['f0'][p] for k, p in enumerate(sel)):
+        return f'r[{ix}] is not the list of elements {sel}'
+    if o['get']['single'] != (ix['t'] == 'int'):
+        return f'r[{ix}]: single = {o["get"]["single"]}'
+    Sm = np.array(o['set']['M']).reshape(-1, 3, 3)
+    V = np.array(o['valM']).reshape(3, 3)
+    for p in range(n):
+        want, wf = (V, o['valf']) if p in sel else (M0[p], o['f0'][p])
+        if np.max(np.abs(Sm[p] - want)) > 1e-12 or o['set']['f'][p] != wf:
+            return f'after r[{ix}] = v element {p} is {"not v" if p in sel else "changed"}'
+    B = np.array(o['back']['M']).reshape(-1, 3, 3)
+    if len(B) != len(sel) or any(np.max(np.abs(b - V)) > 1e-12 for b in B) or any(f != o['valf'] for f in o['back']['f']):
+        return f'r[{ix}] after r[{ix}] = v does not read v back'
+    return None
+
+
+FAMILIES.append(Family('index_model', _gen_index_model, _impl_index_model, _coq_index_model, PREAMBLE, _cmp_index_model, _oracle_index_model,
+                       shard=40, nontrivial=lambda c: True, descr=lambda c: {'ix': c['ix']['t'], 'n': len(c['init'])},
+                       theorem='C13_index_positions, C13_index_int, C13_index_slice, C13_getitem_setitem, C13_getitem_elements, C13_index_natural'))
